@@ -163,5 +163,63 @@ fn c14_prefix_extraction() {
     assert!(extract_ipv4_subnet_8(&b).octets() == [q[0], 0, 0, 0], "C14/prefix/v4_8_keeps_first_8_bits_only");
 }
 
+// ---------------------------------------------------------------------------------------------
+// NATIVE FAILING-INPUT SEARCH for C14 (attaches a concrete arrival pattern to a failed obligation of the
+// Verus unit `ratelim` / decides when it cannot): real clock, one-hour windows (refill over the few
+// milliseconds a run takes is far below one token), bursts of attempts on fresh and on shared keys.
+// ---------------------------------------------------------------------------------------------
+#[cfg(test)]
+mod search {
+    use super::*;
+
+    #[test]
+    fn verif_search_c14() {
+        // keyed engine: (max per window, burst)
+        for (max, burst) in [(1u32, 1u32), (2, 5), (5, 2), (3, 3), (20, 10), (2, 100), (1, 7)] {
+            let cfg = EngineConfig { window: Duration::from_secs(3600), max_requests: max, burst_size: burst };
+            let e: Engine<u32> = Engine::new(cfg);
+            let allowed = std::cmp::min(max, burst) as usize;
+            for key in [7u32, 8, 9] {
+                let admitted = (0..(max + burst + 3)).filter(|_| e.try_consume_key(&key)).count();
+                if admitted > allowed {
+                    panic!("VERIF-SEARCH-HIT C14/engine/a_key_never_exceeds_its_burst_allowance_or_the_window_maximum key={} max_requests={} burst={} admitted={} in one burst of attempts on a fresh key", key, max, burst, admitted);
+                }
+                if admitted < allowed {
+                    panic!("VERIF-SEARCH-HIT C14/engine/different_keys_never_consume_each_others_budget key={} max_requests={} burst={} admitted={} expected={} (an earlier key's traffic reduced this key's budget)", key, max, burst, admitted, allowed);
+                }
+            }
+            // a denied attempt never increases any budget: keep hammering an exhausted key
+            std::thread::sleep(Duration::from_millis(30));
+            let later = (0..50).filter(|_| e.try_consume_key(&7u32)).count();
+            if later > 0 {
+                panic!("VERIF-SEARCH-HIT C14/bucket/denial_leaves_window_count key=7 max_requests={} burst={} admitted_after_exhaustion={}", max, burst, later);
+            }
+        }
+        // join limiter: per-prefix caps and the global burst
+        for (g_max, g_burst) in [(100u32, 10u32), (3, 10), (50, 4)] {
+            let cfg = JoinRateLimiterConfig { max_joins_per_64_per_hour: 1, max_joins_per_48_per_hour: 5, max_joins_per_24_per_hour: 3, max_global_joins_per_minute: g_max, global_burst_size: g_burst };
+            let l = JoinRateLimiter::new(cfg);
+            let mut ok = 0u32;
+            for i in 0..40u16 {
+                // distinct /48s so that only the global limit binds
+                let ip = IpAddr::V6(Ipv6Addr::new(0x2001, 0xdb8, i, 1, 0, 0, 0, 1));
+                if l.check_join_allowed(&ip).is_ok() {
+                    ok += 1;
+                }
+            }
+            if ok > std::cmp::min(g_max, g_burst) {
+                panic!("VERIF-SEARCH-HIT C14/join/global_admissions_bounded_by_burst_and_window_maximum max_per_minute={} burst={} admitted={}", g_max, g_burst, ok);
+            }
+        }
+        let l = JoinRateLimiter::new(JoinRateLimiterConfig { max_global_joins_per_minute: 10_000, global_burst_size: 10_000, ..JoinRateLimiterConfig::default() });
+        let same64 = (0..6u16).filter(|i| l.check_join_allowed(&IpAddr::V6(Ipv6Addr::new(0x2001, 0xdb8, 1, 1, 0, 0, 0, *i))).is_ok()).count();
+        let same48 = (0..12u16).filter(|i| l.check_join_allowed(&IpAddr::V6(Ipv6Addr::new(0x2001, 0xdb8, 2, 10 + *i, 0, 0, 0, 1))).is_ok()).count();
+        let same24 = (0..9u8).filter(|i| l.check_join_allowed(&IpAddr::V4(Ipv4Addr::new(10, 1, 1, *i))).is_ok()).count();
+        if same64 > 1 || same48 > 5 || same24 > 3 {
+            panic!("VERIF-SEARCH-HIT C14/join/per_prefix_admissions_bounded admitted per /64={} (max 1), per /48={} (max 5), per /24={} (max 3)", same64, same48, same24);
+        }
+    }
+}
+
 #[cfg(test)]
 include!("/verif/.build/replay/rate_limit.rs");
